@@ -15,8 +15,10 @@ package main
 
 import (
 	"context"
+	"errors"
 	"flag"
 	"fmt"
+	"math"
 	"os"
 	"runtime/debug"
 	"runtime/pprof"
@@ -63,8 +65,17 @@ func main() {
 			"ChildFilter on pre-annotated parents and IgnoreInconsistency on consistent histories at every state of depth < tier depth. A state is non-trivial when annotation must discriminate: some child has a " +
 			"later version between parent versions, two parent versions see different versions of one child, or an inconsistency is present; " +
 			"fingerprint = (space, op sequence). Family window (props/c11/window.go): way versions stamped inside the skew of another upload - 5 slots 5 min apart, " +
-			"each empty or holding a version of node 1 / node 2 / the way in the way's or a foreign changeset, <= 4 events, 1-3 way versions, default threshold / 1 min / IgnoreInconsistency, way [1 2] and [1 2 1]; " +
-			"judged by an interval oracle (success, carried version between the version current at the way's timestamp and the one current a threshold later, updates newer / ascending / not beyond the next way version, end state of ApplyUpdatesUpTo)")
+			"each empty or holding a version of node 1 / node 2 / the way in the way's or a foreign changeset, <= 4 events, 1-3 way versions, default threshold / 1 min / IgnoreInconsistency / 0 / 24 h / 1 min + IgnoreInconsistency, way [1 2], [1 2 1], [1 1 1 2] and [2 1 2 1 2]; " +
+			"judged by an interval oracle (success, carried version between the version current at the way's timestamp and the one current a threshold later, updates newer / ascending / not beyond the next way version, end state of ApplyUpdatesUpTo). " +
+			"Boundary classes (exact oracle unless stated): families way2x (a child at 3 positions, children at 3 + 2 positions, a parent version without children; node versions at 0/0, on the equator and on the prime meridian), " +
+			"rel3eq (node 7, way 7 and relation 7 as members of one relation, a member at 3 positions, no members; the child way's node list changes direction between versions - the Reverse flag of an update is not judged) and " +
+			"rel3big (ids 2^32+7 for a node and a way, 2^40-1 for a relation, changesets from 2^32+100, versions from 65534); a pre-commit space without any skew, where Threshold(0) is inside the domain; commit-time spaces with whole-second, " +
+			"well separated uploads in which some elements come without a commit time (all parent versions / all child versions / even / odd positions of every history) and spaces that start two uploads before osm.CommitInfoStart " +
+			"(additionally: no commit time on the versions before that date); at every interior state (depth < tier depth) additionally: histories handed over unsorted, the parent versions handed over from the first deleted " +
+			"version (else the second) on, the same call twice, a failing call followed by the judged one on the same parents, the documented defaults passed explicitly, Threshold(1 ns) and Threshold(max) in the commit-time regime, " +
+			"child histories handed over without their first one / two versions (parents before that reference a child that is not there yet: NoVisibleChildError, or unannotated with the later versions as updates under IgnoreInconsistency), " +
+			"Threshold combined with IgnoreInconsistency / IgnoreMissingChildren + a withheld history / ChildFilter, a ChildFilter that accepts everything, relation parents tagged type=multipolygon with outer / inner roles, " +
+			"query times 1 ns before every upload instant and in the year 2500 (default options); and the empty list of parent versions (no error)")
 		r.Assume("the ground truth is the simulator verif/gen/histsim (last version written by an upload committed at or before t), independent of /repo")
 		r.Assume("pre-commit regime domain restriction (ground truth must be observable from timestamps): uploads are 2 h (> 2 x threshold) apart, or, in the " +
 			"spaces that say so, 10 min apart with a same-upload skew of 1 min (timestamps still ascend with versions); same-second uploads write one element " +
@@ -74,12 +85,26 @@ func main() {
 			"the oracle accepts any version-ordered prefix of them, and a deleted child version inside that window may or may not raise the 'deleted between' error; " +
 			"in the commit-time regime the update lists are required to be exact for every threshold")
 		r.Assume("osm.Way/Relation.ApplyUpdatesUpTo is part of the property (time-travel clause), not of the trusted base")
+		r.Assume("elements without a commit time after 2012 are under the timestamp rule: the grouping window of the pre-commit regime is granted to every update list of those variants (their spaces keep uploads " +
+			"more than a threshold apart, so the window only ever holds versions of the next parent's own upload); Threshold(max) is not applied where versions before osm.CommitInfoStart exist; " +
+			"not judged: the Reverse flag of updates, Member.Orientation)")
 
 		if r.ReplayPath != "" {
 			var probe struct {
-				Slots []int `json:"slots"`
+				Slots     []int `json:"slots"`
+				NoParents bool  `json:"no_parents"`
+				EmptyHist bool  `json:"empty_history"`
 			}
 			r.LoadReplay(&probe)
+			if probe.EmptyHist {
+				emptyHistories(r)
+				return
+			}
+			if probe.NoParents {
+				noParents(r)
+				emptyHistories(r)
+				return
+			}
 			if len(probe.Slots) > 0 {
 				var wc windowCase
 				r.LoadReplay(&wc)
@@ -113,8 +138,10 @@ func main() {
 			total += st
 			transitions += tr
 		}
-		if *onlySpace == "" && !*countOnly {
+		if (*onlySpace == "" || *onlySpace == "window") && !*countOnly {
 			windowFamily(r)
+			noParents(r)
+			emptyHistories(r)
 		}
 		r.Set("states", total)
 		r.Set("transitions", transitions)
@@ -141,8 +168,26 @@ func spaces(quick bool) []*Space {
 	// small gap of delta/2 (a foreign child-only touch right after an upload)
 	inter := func(s *Space) *Space { s.Interlopers = true; s.Gaps = append(s.Gaps, s.Delta/2); return s }
 	all, outer := []int{-1, 0, 1}, []int{-1, 1}
+	// boundary classes (audit): see the rule text
+	zeros := func(s *Space) *Space { s.LocMode = histsim.LocZeros; return s }
+	revways := func(s *Space) *Space { s.ReverseWays = true; return s }
+	big := func(s *Space) *Space { s.FirstChangeset, s.FirstVersion, s.VersionStep = 1<<32+100, 65534, 1; return s }
+	strip := func(s *Space) *Space { s.Strip = true; return s }
+	// two uploads before osm.CommitInfoStart (2012-09-12 09:30:03), the third exactly at that instant, the others after it
+	crossing := func(s *Space) *Space { s.Start = osm.CommitInfoStart.Add(-2 * time.Hour); return strip(s) }
 	if quick {
 		return []*Space{
+			// --- boundary classes
+			zeros(commit("way2x", 3, true, h, 100*ms)),
+			zeros(pre("way2x", 3, m, all, 2*h, 0)),
+			pre("way2", 3, 0, []int{0}, 2*h, 0), // no skew at all: Threshold(0) is inside the domain
+			revways(odd(commit("rel3eq", 3, true, h, 100*ms))),
+			revways(pre("rel3eq", 3, 30*m, outer, 2*h, 0)),
+			big(commit("rel3big", 3, false, h)),
+			big(pre("rel3big", 2, m, all, 2*h, 0)),
+			strip(commit("way2", 3, true, h)),
+			crossing(odd(commit("rel3", 3, true, h))),
+			// --- the searched spaces proper
 			commit("way2", 4, true, h, 100*ms),
 			commit("way2r", 5, true, 100*ms),
 			pre("way2", 4, m, all, 2*h, 0),
@@ -153,6 +198,22 @@ func spaces(quick bool) []*Space {
 		}
 	}
 	return []*Space{
+		// --- boundary classes
+		zeros(commit("way2x", 4, true, h, 100*ms)),
+		zeros(pre("way2x", 4, m, all, 2*h, 0)),
+		inter(zeros(pre("way2x", 3, m, all, 2*h, 10*m, 0))),
+		pre("way2", 4, 0, []int{0}, 2*h, 0),
+		revways(odd(commit("rel3eq", 3, true, h, 100*ms, 10*m))),
+		revways(commit("rel3eq", 4, false, 100*ms)),
+		inter(revways(odd(pre("rel3eq", 3, 30*m, all, 2*h, 0)))),
+		big(commit("rel3big", 3, true, h, 100*ms)),
+		big(pre("rel3big", 3, m, all, 2*h, 0)),
+		strip(commit("way2", 4, true, h)),
+		strip(commit("way2x", 3, true, h)),
+		crossing(commit("way2", 4, true, h)),
+		crossing(odd(commit("rel3", 3, true, h))),
+		crossing(revways(commit("rel3eq", 3, true, h))),
+		// --- the searched spaces proper
 		commit("way2", 5, true, 100*ms),
 		commit("way2", 6, false, 100*ms),
 		commit("way2r", 6, true, 100*ms),
@@ -203,6 +264,73 @@ func (s *Space) variants() []Variant {
 		)
 	}
 	vs = append(vs, Variant{Name: "filter-none", Thr: defaultThreshold, Withhold: -1, Filter: -2, When: whenInterior})
+	vs = append(vs, Variant{Name: "filter-all", Thr: defaultThreshold, Withhold: -1, Filter: -3, When: whenInterior})
+
+	// Boundary classes, at every interior state (depth < tier depth).
+	ext := func(v Variant) Variant { v.When = whenInterior; return none(v) }
+	thr2, thr2name := time.Minute, "threshold-1m" // the non-default threshold of the regime
+	if s.Regime == histsim.CommitTime {
+		thr2, thr2name = 0, "threshold-0"
+	}
+	vs = append(vs,
+		ext(Variant{Name: "shuffled-histories", Thr: defaultThreshold, Shuffled: true, KeepRefs: true}),
+		ext(Variant{Name: thr2name + "+shuffled-histories+ignore-inconsistency", Thr: thr2, SetThr: true, IgnInc: true, Shuffled: true}),
+		ext(Variant{Name: "parent-suffix", Thr: defaultThreshold, Suffix: true, KeepRefs: true}),
+		ext(Variant{Name: "parent-suffix+ignore-inconsistency", Thr: defaultThreshold, Suffix: true, IgnInc: true}),
+		ext(Variant{Name: "twice", Thr: defaultThreshold, Twice: true, Reversed: true, KeepRefs: true}),
+		ext(Variant{Name: "twice+ignore-inconsistency", Thr: defaultThreshold, Twice: true, IgnInc: true}),
+		ext(Variant{Name: "retry-after-error", Thr: defaultThreshold, Retry: true}),
+		ext(Variant{Name: "explicit-defaults", Thr: defaultThreshold, Explicit: true, KeepRefs: true}),
+		ext(Variant{Name: "late-child-histories", Thr: defaultThreshold, Late: 1, KeepRefs: true}),
+		ext(Variant{Name: "late-child-histories+ignore-inconsistency", Thr: defaultThreshold, Late: 1, IgnInc: true}),
+		ext(Variant{Name: thr2name + "+later-child-histories+ignore-inconsistency", Thr: thr2, SetThr: true, Late: 2, IgnInc: true, Reversed: true}),
+	)
+	if s.Regime == histsim.CommitTime {
+		// every threshold: in the commit-time regime the result does not depend on it
+		vs = append(vs, ext(Variant{Name: "threshold-1ns", Thr: time.Nanosecond, SetThr: true}))
+		if s.Start.IsZero() {
+			// (not in the spaces that start before osm.CommitInfoStart: their first versions are
+			// under the timestamp rule, where a threshold has to stay below half the distance
+			// between uploads - and where the library's 2*threshold overflows for thresholds
+			// above 2^62 ns, so that no child is found visible at all; reported, not judged)
+			vs = append(vs,
+				ext(Variant{Name: "threshold-max", Thr: time.Duration(math.MaxInt64), SetThr: true, KeepRefs: true}),
+				ext(Variant{Name: "threshold-max+ignore-inconsistency", Thr: time.Duration(math.MaxInt64), SetThr: true, IgnInc: true}))
+		}
+	} else {
+		vs = append(vs, ext(Variant{Name: thr2name + "+ignore-inconsistency", Thr: thr2, SetThr: true, IgnInc: true, KeepRefs: true}))
+		if s.Delta == 0 {
+			vs = append(vs,
+				none(Variant{Name: "threshold-0", Thr: 0, SetThr: true, Reversed: true}),
+				none(Variant{Name: "threshold-0+ignore-inconsistency", Thr: 0, SetThr: true, IgnInc: true, KeepRefs: true, When: whenInconsistent}))
+		}
+	}
+	if !s.Fam.IsWay() {
+		vs = append(vs,
+			ext(Variant{Name: "multipolygon-parent", Thr: defaultThreshold, Polygon: true, KeepRefs: true}),
+			ext(Variant{Name: "multipolygon-parent+ignore-inconsistency", Thr: defaultThreshold, Polygon: true, IgnInc: true}))
+	}
+	// Threshold combined with the other options
+	for x := range s.Fam.Children {
+		n := s.Fam.Names[x]
+		vs = append(vs,
+			Variant{Name: thr2name + "+withhold-" + n + "+ignore-missing", Thr: thr2, SetThr: true, Withhold: x, Filter: -1, IgnMiss: true, When: whenInterior},
+			Variant{Name: thr2name + "+ignore-inconsistency+ignore-missing+withhold-" + n, Thr: thr2, SetThr: true, Withhold: x, Filter: -1, IgnMiss: true, IgnInc: true, KeepRefs: true, When: whenInterior},
+			Variant{Name: thr2name + "+filter-" + n, Thr: thr2, SetThr: true, Withhold: -1, Filter: x, When: whenInterior},
+		)
+	}
+	if s.Strip {
+		modes := []string{"", "parents", "children", "even-positions", "odd-positions", "before-2012-09-12"}
+		for mode := stripParents; mode <= stripBeforeStart; mode++ {
+			if mode == stripBeforeStart && s.Start.IsZero() {
+				continue
+			}
+			vs = append(vs,
+				none(Variant{Name: "no-commit-time-on-" + modes[mode], Thr: defaultThreshold, Strip: mode, KeepRefs: true}),
+				none(Variant{Name: "no-commit-time-on-" + modes[mode] + "+threshold-1m", Thr: time.Minute, SetThr: true, Strip: mode, Reversed: true}),
+				none(Variant{Name: "no-commit-time-on-" + modes[mode] + "+ignore-inconsistency", Thr: defaultThreshold, IgnInc: true, Strip: mode, When: whenInconsistent}))
+		}
+	}
 	out := vs[:0]
 	for _, v := range vs {
 		if s.Regime == histsim.PreCommit && v.Thr < s.Delta {
@@ -219,7 +347,7 @@ func preAnnotated(v Variant) func(i, j int) bool {
 	switch {
 	case v.Filter == -1:
 		return nil
-	case v.Filter == -2:
+	case v.Filter == -2 || v.Filter == -3:
 		return func(i, j int) bool { return (i+j)%2 == 1 }
 	}
 	return func(i, j int) bool { return i >= 1 }
@@ -233,19 +361,20 @@ type task struct {
 }
 
 type worker struct {
-	r       *kit.Run
-	sp      *Space
-	vars    []Variant
-	ops     []Op
-	uploads [][]histsim.Upload
-	w       *histsim.World
-	trace   []Op
-	hashes  []uint64
-	times   []time.Time
-	finds   []finding
-	truth   *truth
-	par     parents
-	ds      [9]*osm.HistoryDatasource
+	r        *kit.Run
+	sp       *Space
+	vars     []Variant
+	ops      []Op
+	uploads  [][]histsim.Upload
+	w        *histsim.World
+	trace    []Op
+	hashes   []uint64
+	times    []time.Time
+	timesExt []time.Time
+	finds    []finding
+	truth    *truth
+	par      parents
+	ds       [9]*osm.HistoryDatasource
 
 	states, transitions, calls int64
 	stop                       *int32
@@ -374,7 +503,9 @@ func search(r *kit.Run, sp *Space) (states, transitions int64) {
 				"compared/d_deleted_parent_versions": st.deletedParents,
 				"compared/e_NoHistoryError":          st.errNoHistory, "compared/e_NoVisibleChildError": st.errNoVisible, "compared/e_deleted_between_error": st.errDeleted,
 				"compared/e_unannotated_missing_child_refs": st.unannotatedMissing, "compared/e_unannotated_inconsistent_child_refs": st.unannotatedInconsistent,
-				"compared/childfilter_untouched_refs": st.filteredUntouched,
+				"compared/childfilter_untouched_refs":             st.filteredUntouched,
+				"compared/e_unannotated_child_not_yet_there_refs": st.notYetThere, "compared/zero_coordinate_annotations_and_updates": st.zeroCoordinate,
+				"seen/updates_with_reverse_flag_not_judged": st.reverseFlags,
 			} {
 				r.Add(name, v)
 			}
@@ -399,8 +530,17 @@ func search(r *kit.Run, sp *Space) (states, transitions int64) {
 
 // ---------------------------------------------------------------- evaluation
 
-func (k *worker) queryTimes() []time.Time {
+// farFuture is a query time beyond the range of UnixNano (year 2262).
+var farFuture = time.Date(2500, 1, 1, 0, 0, 0, 0, time.UTC)
+
+// queryTimes: every upload instant, the midpoints between them, one hour after
+// the last upload; extended (the default variant at interior states): also the
+// last nanosecond before every upload instant and a far-future instant.
+func (k *worker) queryTimes(interior bool) []time.Time {
 	ts := k.times[:0]
+	if interior {
+		ts = k.timesExt[:0]
+	}
 	n := k.w.Len()
 	for i := 0; i < n; i++ {
 		t := k.w.UploadTime(i)
@@ -410,10 +550,18 @@ func (k *worker) queryTimes() []time.Time {
 				continue
 			}
 			ts = append(ts, p.Add(t.Sub(p)/2))
+			if interior {
+				ts = append(ts, t.Add(-time.Nanosecond))
+			}
 		}
 		ts = append(ts, t)
 	}
 	ts = append(ts, k.w.UploadTime(n-1).Add(time.Hour))
+	if interior {
+		ts = append(ts, farFuture)
+		k.timesExt = ts
+		return ts
+	}
 	k.times = ts
 	return ts
 }
@@ -428,11 +576,15 @@ func (k *worker) evalState() {
 	if *countOnly {
 		return
 	}
-	times := k.queryTimes()
+	interior := len(k.trace) <= k.sp.ExtraDepth
+	times := k.queryTimes(false)
+	times0 := times // query times of the default variant
+	if interior {
+		times0 = k.queryTimes(true)
+	}
 	for i := range k.ds {
 		k.ds[i] = nil
 	}
-	interior := len(k.trace) <= k.sp.ExtraDepth
 	nontrivial, inconsistent := false, false
 	var referenced [8]bool
 	for vi := range k.vars {
@@ -453,7 +605,11 @@ func (k *worker) evalState() {
 				continue
 			}
 		}
-		t := k.evalVariant(*v, times)
+		qt := times
+		if vi == 0 {
+			qt = times0
+		}
+		t := k.evalVariant(*v, qt)
 		if vi == 0 {
 			nontrivial = t.nontriv
 			inconsistent = len(t.incs) > 0
@@ -525,13 +681,26 @@ func (k *worker) buildParents(t *truth) *parents {
 	p := &k.par
 	p.ways, p.rels = nil, nil
 	if f.IsWay() {
-		p.ways = k.w.Ways(f.Parent.WayID())
+		p.ways = k.w.Ways(f.Parent.WayID())[t.from:]
 	} else {
-		p.rels = k.w.Relations(f.Parent.RelationID())
+		p.rels = k.w.Relations(f.Parent.RelationID())[t.from:]
 	}
 	for i := range t.pv {
+		if stripped(t.v.Strip, t.from+i, t.pv[i].Commit, true) {
+			if f.IsWay() {
+				p.ways[i].Committed = nil
+			} else {
+				p.rels[i].Committed = nil
+			}
+		}
+		if t.v.Polygon && !f.IsWay() {
+			p.rels[i].Tags = osm.Tags{{Key: "type", Value: "multipolygon"}}
+			for j := range p.rels[i].Members {
+				p.rels[i].Members[j].Role = []string{"outer", "inner", ""}[j%3]
+			}
+		}
 		if !t.pv[i].Visible && t.v.KeepRefs {
-			refs := expectedRefs(t.pv, i, true)
+			refs := expectedRefs(t.all, t.from+i, true)
 			if f.IsWay() {
 				p.ways[i].Nodes = make(osm.WayNodes, len(refs))
 				for j, c := range refs {
@@ -563,8 +732,26 @@ func (k *worker) evalVariant(v Variant, times []time.Time) *truth {
 	// one datasource per state and withheld child (the library does not modify
 	// the elements; it sorts the history slices, which are sorted already)
 	ds := k.ds[v.Withhold+1]
-	if v.Reversed {
-		ds = reversed(k.w.SharedDatasource(f.Parent))
+	if v.Strip != stripNone || v.Reversed || v.Shuffled || v.Late > 0 {
+		// a datasource of its own: commit times stripped (on copies of the elements),
+		// leading versions dropped, histories reordered
+		withhold := []osm.FeatureID{f.Parent}
+		if v.Withhold >= 0 {
+			withhold = append(withhold, f.Children[v.Withhold])
+		}
+		if v.Strip != stripNone {
+			ds = stripCommitted(k.w.Datasource(withhold...), v.Strip)
+		} else {
+			ds = k.w.SharedDatasource(withhold...)
+		}
+		if v.Late > 0 {
+			ds = late(ds, v.Late)
+		}
+		if v.Reversed {
+			ds = reversed(ds)
+		} else if v.Shuffled {
+			ds = shuffled(ds)
+		}
 	} else if ds == nil {
 		if v.Withhold >= 0 {
 			ds = k.w.SharedDatasource(f.Parent, f.Children[v.Withhold])
@@ -588,9 +775,23 @@ func (k *worker) evalVariant(v Variant, times []time.Time) *truth {
 		if v.Filter >= 0 {
 			accept = f.Children[v.Filter]
 		}
-		opts = append(opts, annotate.ChildFilter(func(id osm.FeatureID) bool { return id == accept }))
+		all := v.Filter == -3
+		opts = append(opts, annotate.ChildFilter(func(id osm.FeatureID) bool { return all || id == accept }))
+	}
+	if v.Explicit {
+		opts = append(opts, annotate.Threshold(defaultThreshold), annotate.IgnoreInconsistency(false), annotate.IgnoreMissingChildren(false), annotate.ChildFilter(nil))
 	}
 
+	if v.Retry {
+		// a call that fails when the first child is referenced (its result is not
+		// judged), then the judged call on the same parents with the full datasource
+		callLibrary(f.IsWay(), p, k.w.SharedDatasource(f.Parent, f.Children[0]), nil)
+		k.calls++
+	}
+	if v.Twice {
+		callLibrary(f.IsWay(), p, ds, opts)
+		k.calls++
+	}
 	err, panicked := callLibrary(f.IsWay(), p, ds, opts)
 	k.calls++
 
@@ -620,6 +821,125 @@ func (k *worker) evalVariant(v Variant, times []time.Time) *truth {
 		k.violation(v, fd.key, fd.what)
 	}
 	return t
+}
+
+// emptyHistories: a child history that is present but holds no version at all
+// (osm.HistoryDatasource{Nodes: {1: osm.Nodes{}}}, or any datasource answering an
+// empty list with a nil error). The property text does not say whether that is a
+// "missing" (NoHistoryError) or an "inconsistent" (NoVisibleChildError) history, so
+// either typed error is accepted under the default options; with the ignore option
+// that covers the error the library reports by default, the call succeeds, the
+// reference stays unannotated and gets no updates. Found by the boundary audit:
+// the last parent version used to make core.nextVersionIndex evaluate
+// child[len(child)-1] on the empty list (panic: index out of range [-1]); repaired
+// in /repo ("fix: annotate: a child history without versions ...").
+func emptyHistories(r *kit.Run) {
+	t0 := time.Date(2014, 5, 1, 0, 0, 0, 0, time.UTC)
+	good := osm.Nodes{{ID: 2, Version: 1, Visible: true, ChangesetID: 9, Timestamp: t0.Add(-time.Hour), Lat: 1, Lon: 2}}
+	for nver := 1; nver <= 3; nver++ {
+		for way := 0; way < 2; way++ {
+			for opt := 0; opt < 4; opt++ {
+				for pos := 0; pos < 2; pos++ {
+					key := fmt.Sprintf("empty-history|versions=%d|way=%d|opt=%d|pos=%d", nver, way, opt, pos)
+					r.Case(key, true)
+					ds := &osm.HistoryDatasource{Nodes: map[osm.NodeID]osm.Nodes{1: {}, 2: good}}
+					ps := &parents{}
+					for v := 1; v <= nver; v++ {
+						ts := t0.Add(time.Duration(v) * 24 * time.Hour)
+						refs := []osm.NodeID{1, 2}
+						if pos == 1 {
+							refs = []osm.NodeID{2, 1, 2}
+						}
+						if way == 0 {
+							w := &osm.Way{ID: 7, Version: v, Visible: true, ChangesetID: osm.ChangesetID(100 + v), Timestamp: ts}
+							for _, id := range refs {
+								w.Nodes = append(w.Nodes, osm.WayNode{ID: id})
+							}
+							ps.ways = append(ps.ways, w)
+						} else {
+							rl := &osm.Relation{ID: 7, Version: v, Visible: true, ChangesetID: osm.ChangesetID(100 + v), Timestamp: ts}
+							for _, id := range refs {
+								rl.Members = append(rl.Members, osm.Member{Type: osm.TypeNode, Ref: int64(id)})
+							}
+							ps.rels = append(ps.rels, rl)
+						}
+					}
+					var opts []annotate.Option
+					if opt&1 != 0 {
+						opts = append(opts, annotate.IgnoreInconsistency(true))
+					}
+					if opt&2 != 0 {
+						opts = append(opts, annotate.IgnoreMissingChildren(true))
+					}
+					err, panicked := callLibrary(way == 0, ps, ds, opts)
+					fail := func(k, what string) {
+						r.Violation("empty-history/"+k, fmt.Sprintf("%s: %s", key, what), map[string]interface{}{"empty_history": true, "versions": nver, "way": way == 0, "opt": opt, "pos": pos})
+					}
+					if panicked != nil {
+						fail("panic", fmt.Sprintf("the library panicked: %v", panicked))
+						continue
+					}
+					var nv *annotate.NoVisibleChildError
+					var nh *annotate.NoHistoryError
+					typed := errors.As(err, &nv) || errors.As(err, &nh)
+					switch {
+					case err != nil && !typed:
+						fail("error-type", fmt.Sprintf("error %T (%v), want NoVisibleChildError or NoHistoryError", err, err))
+					case err == nil && opt == 0:
+						fail("error-missing", "annotation succeeded although child node/1 has a history without versions and no ignore option is set")
+					case err != nil && opt == 3:
+						fail("ignored-error-returned", fmt.Sprintf("both ignore options set, yet: %v", err))
+					case err == nil:
+						// the empty child stays unannotated, the good one is annotated
+						check := func(v, i int, id int64, version int, ups osm.Updates) {
+							if id == 1 && version != 0 {
+								fail("annotated-from-nothing", fmt.Sprintf("parent v%d ref %d (node/1) carries version %d", v, i, version))
+							}
+							if id == 2 && version != 1 {
+								fail("good-child-not-annotated", fmt.Sprintf("parent v%d ref %d (node/2) carries version %d, want 1", v, i, version))
+							}
+						}
+						for _, w := range ps.ways {
+							for i, n := range w.Nodes {
+								check(w.Version, i, int64(n.ID), n.Version, w.Updates)
+							}
+							if len(w.Updates) != 0 {
+								fail("updates-from-nothing", fmt.Sprintf("way v%d has %d updates", w.Version, len(w.Updates)))
+							}
+						}
+						for _, rl := range ps.rels {
+							for i, m := range rl.Members {
+								check(rl.Version, i, m.Ref, m.Version, rl.Updates)
+							}
+							if len(rl.Updates) != 0 {
+								fail("updates-from-nothing", fmt.Sprintf("relation v%d has %d updates", rl.Version, len(rl.Updates)))
+							}
+						}
+					}
+				}
+			}
+		}
+	}
+}
+
+// NOT ENUMERATED: Threshold values above 2^62 ns on histories with versions before
+// osm.CommitInfoStart (FindVisible computes 2*eps, which overflows: every child is
+// reported as not visible). Outside the documented domain of the timestamp rule
+// (uploads more than two thresholds apart) and of no practical relevance.
+
+// noParents: the history with no parent version at all - nothing to annotate,
+// no child is asked for, no error (with an empty, a nil-map and a filled datasource).
+func noParents(r *kit.Run) {
+	n1 := &osm.Node{ID: 1, Version: 1, Visible: true, Timestamp: time.Date(2013, 1, 1, 0, 0, 0, 0, time.UTC)}
+	for i, ds := range []*osm.HistoryDatasource{{}, {Nodes: map[osm.NodeID]osm.Nodes{}}, {Nodes: map[osm.NodeID]osm.Nodes{1: {n1}}}} {
+		for j, ps := range []*parents{{ways: osm.Ways{}}, {rels: osm.Relations{}}} {
+			r.Case(fmt.Sprintf("no-parents|%d|%d", i, j), false)
+			err, panicked := callLibrary(j == 0, ps, ds, nil)
+			if panicked != nil || err != nil {
+				r.Violation("no-parents/"+[]string{"way", "relation"}[j], fmt.Sprintf("annotating an empty list of parent versions: error %v, panic %v", err, panicked), map[string]bool{"no_parents": true})
+			}
+		}
+	}
 }
 
 // callLibrary runs the code under test; a panic is a finding, not a crash.
@@ -662,6 +982,93 @@ func reversed(ds *osm.HistoryDatasource) *osm.HistoryDatasource {
 	return ds
 }
 
+// shuffled returns a datasource whose histories are fresh slices in neither
+// ascending nor descending order: the even positions ascending, then the odd
+// positions descending (v1 v3 v5 v4 v2).
+func shuffled(ds *osm.HistoryDatasource) *osm.HistoryDatasource {
+	perm := func(n int) []int {
+		var out []int
+		for i := 0; i < n; i += 2 {
+			out = append(out, i)
+		}
+		for i := n - 1; i >= 0; i-- {
+			if i%2 == 1 {
+				out = append(out, i)
+			}
+		}
+		return out
+	}
+	for id, h := range ds.Nodes {
+		r := make(osm.Nodes, 0, len(h))
+		for _, i := range perm(len(h)) {
+			r = append(r, h[i])
+		}
+		ds.Nodes[id] = r
+	}
+	for id, h := range ds.Ways {
+		r := make(osm.Ways, 0, len(h))
+		for _, i := range perm(len(h)) {
+			r = append(r, h[i])
+		}
+		ds.Ways[id] = r
+	}
+	for id, h := range ds.Relations {
+		r := make(osm.Relations, 0, len(h))
+		for _, i := range perm(len(h)) {
+			r = append(r, h[i])
+		}
+		ds.Relations[id] = r
+	}
+	return ds
+}
+
+// late drops the first d versions of every history that has more than d.
+func late(ds *osm.HistoryDatasource, d int) *osm.HistoryDatasource {
+	for id, h := range ds.Nodes {
+		if len(h) > d {
+			ds.Nodes[id] = h[d:]
+		}
+	}
+	for id, h := range ds.Ways {
+		if len(h) > d {
+			ds.Ways[id] = h[d:]
+		}
+	}
+	for id, h := range ds.Relations {
+		if len(h) > d {
+			ds.Relations[id] = h[d:]
+		}
+	}
+	return ds
+}
+
+// stripCommitted removes the commit time from the child versions the pattern
+// names. ds must own its elements (World.Datasource, not SharedDatasource).
+func stripCommitted(ds *osm.HistoryDatasource, mode int) *osm.HistoryDatasource {
+	for _, h := range ds.Nodes {
+		for i, e := range h {
+			if e.Committed != nil && stripped(mode, i, *e.Committed, false) {
+				e.Committed = nil
+			}
+		}
+	}
+	for _, h := range ds.Ways {
+		for i, e := range h {
+			if e.Committed != nil && stripped(mode, i, *e.Committed, false) {
+				e.Committed = nil
+			}
+		}
+	}
+	for _, h := range ds.Relations {
+		for i, e := range h {
+			if e.Committed != nil && stripped(mode, i, *e.Committed, false) {
+				e.Committed = nil
+			}
+		}
+	}
+	return ds
+}
+
 func errClass(err error) string {
 	switch err.(type) {
 	case *annotate.NoHistoryError:
@@ -679,7 +1086,7 @@ func replay(r *kit.Run, c Case) {
 	var stop int32
 	k := newWorker(r, sp, &stop)
 	k.reset(c.Ops)
-	times := k.queryTimes()
+	times := k.queryTimes(true)
 	fmt.Printf("replaying %s, variant %s, history %v\n", sp.label(), c.Variant.Name, k.traceStrings())
 	// The library iterates a Go map; a defect that depends on that order may
 	// need a few attempts to show again.
